@@ -27,3 +27,10 @@ func (ctrler *GovCtrler) VerifActiveParams() *ctrlertypes.GovParams {
 func (ctrler *GovCtrler) VerifNewGovParams() *ctrlertypes.GovParams {
 	return ctrler.newGovParams
 }
+
+// VerifCloseLeaked closes the store that Close() leaves open.
+func (ctrler *GovCtrler) VerifCloseLeaked() {
+	if ctrler.frozenLedger != nil {
+		_ = ctrler.frozenLedger.Close()
+	}
+}
